@@ -92,8 +92,9 @@ def mon_c02(sc, prof, pairs):
         if i["step"] == "end": continue
         op = op_of(sc, i["step"])
         line = sc.lines[int(i["step"])]
-        if "wleaf" in line: user_wrote = True
+        if "wleaf" in line or line.startswith(("viewmut", "itermut", "ptrw")): user_wrote = True
         if "panic=" in line: cb_panicked = True
+        if i.get("regs", "~") == "~": continue
         regs = parse_regs(i["regs"])
         if not lockstep_ok(regs):
             out.append(Failure(sc, prof, i["step"], f"field arrays out of lockstep: {i['regs']}", f"C02:{op}:lockstep", {"I": i["raw"]}))
@@ -202,7 +203,61 @@ def mon_c12(sc, prof, pairs):
     return out
 
 
-MONITORS = {"C12": mon_c12, "C09": mon_c09, "C04": mon_c04, "C01": mon_c01, "C02": mon_c02, "C03": mon_c03, "C08": mon_c08}
+def _same(sc, prof, pairs, prop, ops, fields=("status", "ret", "regs"), extra=None):
+    out = []
+    for i, s in pairs:
+        if i["step"] == "end": continue
+        line = sc.lines[int(i["step"])]
+        w = line.split()
+        if w[0] not in ops: continue
+        sub = w[0] + (":" + w[2] if w[0] in ("sort", "refs", "iter", "itermut") and len(w) > 2 else "")
+        for f in fields:
+            if i.get(f) != s.get(f):
+                out.append(Failure(sc, prof, i["step"], f"{line}: {f}: soa={str(i.get(f))[:300]} std={str(s.get(f))[:300]}", f"{prop}:{sub}:{f}", {"I": i["raw"], "S": s["raw"]}))
+                break
+        else:
+            if extra:
+                m = extra(line, i, s)
+                if m: out.append(Failure(sc, prof, i["step"], f"{line}: {m}", f"{prop}:{sub}:extra", {"I": i["raw"], "S": s["raw"]}))
+    return out
+
+
+def mon_c05(sc, prof, pairs):
+    """views cover what the std slice operation covers and panic when std panics; a write through a mutable
+    view changes exactly the addressed field of the addressed element of the parent (whole parent compared)"""
+    return _same(sc, prof, pairs, "C05", ("view", "viewmut"))
+
+
+def mon_c06(sc, prof, pairs):
+    """iterators: yields, len and size_hint after every step as std's slice iterators; writes land in the yielded element"""
+    return _same(sc, prof, pairs, "C06", ("iter", "itermut"))
+
+
+def mon_c07(sc, prof, pairs):
+    """sorting / apply_index: result equals std's stable sort / the gather of the mirror, all fields by one permutation"""
+    def extra(line, i, s):
+        regs = parse_regs(i["regs"])
+        if not lockstep_ok(regs): return "fields out of lockstep after reordering"
+        return None
+    return _same(sc, prof, pairs, "C07", ("sort", "apply_index", "swap"), fields=("status", "regs"), extra=extra)
+
+
+def mon_c10(sc, prof, pairs):
+    """pointer bundles: designate base+offset in every field, read/write/as_ref touch that element only,
+    null iff a component is null, a pointer write destroys nothing, round trips are the identity"""
+    def extra(line, i, s):
+        m = re.search(r"wev=(\[[^\]]*\])", i.get("ret", ""))
+        if m and m.group(1) != "[]": return f"the pointer write destroyed something: {m.group(1)}"
+        return None
+    return _same(sc, prof, pairs, "C10", ("ptr", "ptrw", "roundtrip"), extra=extra)
+
+
+def mon_c15(sc, prof, pairs):
+    """element references: conversions are value-preserving (ids, clone events), replace swaps exactly one element"""
+    return _same(sc, prof, pairs, "C15", ("refs", "refreplace", "extend_refs"), fields=("status", "ret", "rev", "ev", "regs"))
+
+
+MONITORS = {"C05": mon_c05, "C06": mon_c06, "C07": mon_c07, "C10": mon_c10, "C15": mon_c15, "C12": mon_c12, "C09": mon_c09, "C04": mon_c04, "C01": mon_c01, "C02": mon_c02, "C03": mon_c03, "C08": mon_c08}
 
 
 def _meta_clonefuse(self, step):
@@ -271,6 +326,7 @@ def run_suite(prop, scenarios, profiles, monitors, tag="suite", compare_model=Tr
                     res.hist_ops[op] += 1
                     res.hist_status[f"{op}:{i['status']}"] += 1
                     try:
+                        if s.get("regs", "~") == "~": raise ValueError
                         regs = parse_regs(s["regs"])
                         res.hist_len[max(len(c[0]) if c else 0 for c in regs)] += 1
                         if any(c and len(c[0]) > 0 for c in regs): nontrivial = True
